@@ -111,7 +111,8 @@ fn valid_dirs_for(loc: &str) -> Vec<Dir> {
     let mut v = vec![dir("all", vec![]), dir("one", vec![]), dir("one", vec![("n", int(2)), ("k", Value::Enum(P::default(), "B".into()))])];
     if ["FIELD_DEFINITION", "ARGUMENT_DEFINITION", "INPUT_FIELD_DEFINITION", "ENUM_VALUE"].contains(&loc) {
         v.push(dir("deprecated", vec![]));
-        v.push(dir("deprecated", vec![("reason", s("r"))]));
+        // a reason that needs escapes in SDL and in JSON, and that would close a comment
+        v.push(dir("deprecated", vec![("reason", s("say \"no\"\nnow \\ é */"))]));
     }
     if loc == "SCALAR" {
         v.push(dir("specifiedBy", vec![("url", s("u"))]));
